@@ -761,6 +761,28 @@ def messages(ctx, o, core):
                         isinstance(n.func.value, ast.Attribute) and n.func.value.attr in ('name',) + NULLABLE:
                     o.refute(f, r, n, f"raise message calls a method on `{src(n.func.value)}` which may be None")
                     bad = True
+            # a format specification applied to a nullable field: format(None, '%Y-%m-%d') is a TypeError
+            specs = [n for n in ast.walk(r) if isinstance(n, ast.FormattedValue) and n.format_spec is not None and
+                     any(not (isinstance(v, ast.Constant) and v.value == '') for v in n.format_spec.values)]
+            if specs:
+                ex = Expander(ctx.prog, f, ctx.typer)
+                cfg = cfg_of(f)
+                rn = cfg.node_of(r)
+                path = facts.node_conditions(ctx.prog, f, r, ctx.typer, expand=True)
+                for n in specs:
+                    v = ex.expand(n.value, rn)
+                    for conds, case in sched.expr_cases(v):
+                        if not (isinstance(case, ast.Attribute) and case.attr in ('name', 'resource') + NULLABLE):
+                            continue
+                        known = False
+                        for t, q in list(path) + list(conds):
+                            t2, q2 = facts.norm_cond(t, q)
+                            if (same(t2, case) and q2) or (facts.cond_is(t, q, "$x is None", want=False) and same(facts.norm_cond(t, q)[0].left, case)):
+                                known = True
+                        if not known:
+                            o.refute(f, r, n, f"raise message formats `{src(case)}` (may be None) with a format specification "
+                                              f"`{src(n)[:40]}`: TypeError instead of the diagnosis")
+                            bad = True
             if not bad:
                 o.site(f, r, "message built without `+` on nullable fields")
 
